@@ -19,7 +19,7 @@ import (
 func collectObjectOperator(d *dataTreeNavigator, originalContext Context, _ *ExpressionNode) (Context, error) {
 	log.Debugf("collectObjectOperation")
 
-	context := originalContext.WritableClone()
+	context := originalContext.Clone()
 
 	if context.MatchingNodes.Len() == 0 {
 		candidate := &CandidateNode{Kind: MappingNode, Tag: "!!map", Value: "{}"}
